@@ -341,11 +341,10 @@ def c08(view, info):
             continue
         if server_ok_for(view, bsrv, aname) is not None:
             continue
-        if state is scheduler.State.down:
+        episode = view.down_since.get(bsrv)
+        if episode is not None:
+            # ground truth: the server is down (whatever the model thinks)
             ret = view.decl_apps[aname]['retention']
-            episode = view.down_since.get(bsrv)
-            if episode is None:
-                continue
             t_lo, t_hi = episode
             if ret is not None and t_lo + ret > info.c1:
                 if asrv != bsrv:
@@ -358,8 +357,9 @@ def c08(view, info):
                 if asrv == bsrv:
                     raise Violation(
                         'c08.retention-late',
-                        '%s is still on %s (down since <= %s, retention %s)'
-                        ' at %s' % (aname, bsrv, t_hi, ret, info.c0))
+                        '%s is still on %s (down since <= %s, retention %s, '
+                        'model state %s) at %s' % (
+                            aname, bsrv, t_hi, ret, state.value, info.c0))
         elif state is scheduler.State.frozen:
             if not flags['unschedule'] and asrv != bsrv:
                 raise Violation(
